@@ -457,6 +457,9 @@ class World:
         return ('swap', i)
 
     def s_sift(self):
+        if len(self.raw.vars) < 2:
+            # sifting a manager with < 2 variables is judged in C07
+            return ('sift-skip',)
         before = len(self.raw)
         # sifting collects garbage first; compare with collected size
         if self.kind == 'bdd':
@@ -581,8 +584,11 @@ class World:
 
     def s_dump_load(self):
         """Pickle some roots and load them back into the same manager."""
-        k = self.rng.randint(1, min(3, len(self.pool)))
-        es = self.rng.sample(self.pool, k)
+        cands = [e for e in self.pool if abs(node_of(e.h)) != 1]
+        if not cands:
+            return ('dump-load-skip',)
+        k = self.rng.randint(1, min(3, len(cands)))
+        es = self.rng.sample(cands, k)
         as_dict = self.rng.random() < 0.5
         roots = ({f'r{i}': e.h for i, e in enumerate(es)} if as_dict
                  else [e.h for e in es])
@@ -603,20 +609,156 @@ class World:
                                 (node_of(h), node_of(e.h)))
         return ('dump-load', k, as_dict)
 
+    # ---------------------------------------------------------- routes
+    def dnf_by_connectives(self, t):
+        """Disjunction of minterms built with `apply` (terminal-heavy)."""
+        bdd, sp = self.bdd, self.sp
+        sup = sorted(sp.support(t))
+        r = bdd.false
+        seen = set()
+        for k in range(sp.size):
+            if not (t >> k) & 1:
+                continue
+            key = tuple((k >> sp.index[v]) & 1 for v in sup)
+            if key in seen:
+                continue
+            seen.add(key)
+            c = bdd.true
+            for v, b in zip(sup, key):
+                x = bdd.var(v)
+                if not b:
+                    x = bdd.apply('not', x)
+                c = bdd.apply('and', c, x)
+            r = bdd.apply('or', r, c)
+        return r
+
+    def dnf_text(self, t):
+        sp = self.sp
+        sup = sorted(sp.support(t))
+        if t == 0:
+            return 'FALSE'
+        if t == sp.full:
+            return 'TRUE'
+        terms = []
+        seen = set()
+        for k in range(sp.size):
+            if not (t >> k) & 1:
+                continue
+            key = tuple((k >> sp.index[v]) & 1 for v in sup)
+            if key in seen:
+                continue
+            seen.add(key)
+            terms.append('(' + ' /\\ '.join(
+                v if b else '~ ' + v for v, b in zip(sup, key)) + ')')
+        return ' \\/ '.join(terms)
+
+    def route(self, name, t):
+        """Construct the function with table `t` by the named route."""
+        bdd, sp, rng = self.bdd, self.sp, self.rng
+        if name == 'nodes':
+            return self.build(t)
+        if name == 'ite':
+            return self.build_public(t)
+        if name == 'dnf':
+            return self.dnf_by_connectives(t)
+        if name == 'expr':
+            return bdd.add_expr(self.dnf_text(t))
+        if name == 'to_expr':
+            u = self.build(t)
+            return bdd.add_expr(bdd.to_expr(u))
+        if name == 'rename':
+            names = list(sp.names)
+            perm = names[:]
+            rng.shuffle(perm)
+            pi = dict(zip(names, perm))
+            inv = {b: a for a, b in pi.items()}
+            u = self.build(sp.rename(t, pi))
+            return bdd.let(inv, u)
+        if name == 'compose':
+            names = list(sp.names)
+            perm = names[:]
+            rng.shuffle(perm)
+            pi = dict(zip(names, perm))
+            inv = {b: a for a, b in pi.items()}
+            u = self.build(sp.rename(t, pi))
+            keep = [bdd.var(a) for a in names]   # keep handles alive
+            d = {b: bdd.var(a) for b, a in inv.items()}
+            r = bdd.let(d, u)
+            del keep
+            return r
+        if name == 'cofactor-expand':
+            if not sp.names:
+                return self.build(t)
+            v = rng.choice(sp.names)
+            u = self.build(t)
+            lo = bdd.let({v: False}, u)
+            hi = bdd.let({v: True}, u)
+            return bdd.ite(bdd.var(v), hi, lo)
+        if name == 'pickle':
+            u = self.build(t)
+            if abs(node_of(u)) == 1:
+                return u    # constant roots are C12's business
+            fn = f'c{os.getpid()}.p'
+            try:
+                bdd.dump(fn, [u])
+                r, = bdd.load(fn)
+            finally:
+                if os.path.exists(fn):
+                    os.remove(fn)
+            return r
+        if name == 'copy':
+            names = list(self.raw.vars)
+            rng.shuffle(names)
+            lv = {v: i for i, v in enumerate(names)}
+            if self.kind == 'bdd':
+                other = self._b.BDD(lv)
+                v = build(other, t, sp)
+                other.incref(v)
+                r = other.copy(v, self.raw)
+                other.decref(v)
+                return r
+            other = self._a.BDD(lv)
+            v = self._a.Function(build(other._bdd, t, sp), other)
+            return other.copy(v, bdd)
+        raise ValueError(name)
+
+    ROUTES = ('nodes', 'ite', 'dnf', 'expr', 'to_expr', 'rename',
+              'compose', 'cofactor-expand', 'pickle', 'copy')
+
+    def s_canon(self):
+        """Re-derive a held function by a random route: the same
+        reference must come back."""
+        e = self.pick()
+        name = self.rng.choice(self.ROUTES)
+        if self.reordering:
+            ok = ('ite', 'expr') if self.kind == 'bdd' else (
+                'ite', 'expr', 'dnf')
+            if name not in ok:
+                name = 'ite'
+        h = self.route(name, e.tt)
+        if node_of(h) != node_of(e.h):
+            raise Violation(name, 'same-function-different-reference',
+                            dict(route=name, got=node_of(h),
+                                 held=node_of(e.h), table=self.sp.fmt(e.tt)))
+        self.ctx.count('route_' + name)
+        return ('canon', name)
+
     # ---------------------------------------------------------- driving
     MENU = dict(
         build=6, apply=10, apply_quant=2, ite=6, quantify=4,
         **{'not': 2}, let_const=3, let_rename=3, let_compose=3, cube=1, var=1,
         add_expr=3, to_expr=1, dup=2, drop=6, drop_many=1, gc=4,
         gc_rooted=1, swap=3, sift=1, reorder_to=1, pairs=1, declare=0,
-        undeclare=0, copy_roundtrip=1, dump_load=0, traverse=0)
+        undeclare=0, copy_roundtrip=1, dump_load=0, traverse=0, canon=0)
 
     def step(self, menu):
         """Execute one random step from `menu` (name -> weight) and run
         the quiescent-point monitors."""
         names = [k for k, w in menu.items() if w > 0]
         weights = [menu[k] for k in names]
-        if not self.pool:
+        if not self.raw.vars:
+            name = 'declare'
+        elif not self.pool:
             name = 'build'
         else:
             name = self.rng.choices(names, weights)[0]
